@@ -62,10 +62,16 @@ def check(case):
             r = kal.align_arr(seqs, cfg)
         else:
             nm = ["s%d" % i for i in range(k)]
-            if case.get("header") and case["entry"] == "file":      # (headers with blanks cannot be carried by the block formats)
+            if case.get("header") and case["entry"] == "file":
                 hi, hl = case["header"]
                 hi = hi % k
                 nm[hi] = (nm[hi] + " Escherichia coli K-12 " + "hypotheticalproteinMKV " * (hl // 23 + 1))[:hl]
+            elif case.get("header") and case["entry"] == "written":
+                # headers with blanks cannot be carried by the block formats: one blank-free token of that length (accession
+                # lists, UniRef-style identifiers); the writers of the block formats size their lines from the name lengths
+                hi, hl = case["header"]
+                hi = hi % k
+                nm[hi] = (nm[hi] + "|" + "sp|P0A7G6|RECA_ECOLI_hypotheticalproteinMKV|" * (hl // 40 + 1))[:hl]
             r = kal.align_named(nm, seqs, cfg, layout=case.get("layout"))
             if case["entry"] == "written":
                 # the same through the files kalign writes (all three formats), independently parsed
@@ -90,8 +96,10 @@ def check(case):
     except kal.Rejected as e:
         return engine.violation({"what": "identical sequences rejected: %s" % e.what, "info": e.info}, kind="status")
     cl = ["entry=" + case["entry"], "biotype=%d" % bt, "type=%d" % t]
-    if case.get("header") and case["entry"] == "file":
+    if case.get("header") and case["entry"] in ("file", "written"):
         cl.append("long_header")
+        if case["entry"] == "written":
+            cl.append("long_header_written")
     if k >= 100:
         cl.append("copies>=100")
     if len(s) >= 500:
@@ -139,6 +147,13 @@ def extra(tier, seed, stats):
         alpha = gen.AA if hi % 2 else gen.NUC
         cases_.append({"s": "".join(rnd.choice(alpha) for _ in range(40 + hi)), "copies": 3 + hi % 3, "type_pick": hi % 4, "threads": 1, "entry": "file",
                        "layout": {"width": [0, 60][hi % 2], "eol": "\n", "final_eol": True}, "header": [hi, hl]})
+    # the same for the written files (blank-free names): name lengths on and next to the name field sizes of the block formats
+    for hi, hl in enumerate([60, 100, 127, 128, 129, 200, 250, 255, 256, 257, 258, 260, 262, 263, 264, 270, 300, 320, 323, 324, 400, 511, 512, 513,
+                             1000, 1023, 1024, 1025, 4095, 4096, 4097, 8192, 8193, 65536, 70000]):
+        rnd = random.Random(seed * 11 + hl)
+        alpha = gen.AA if hi % 2 else gen.NUC
+        cases_.append({"s": "".join(rnd.choice(alpha) for _ in range([40, 61, 150, 121][hi % 4] + hi)), "copies": 2 + hi % 4, "type_pick": hi % 4, "threads": 1,
+                       "entry": "written", "layout": {"width": [0, 60][hi % 2], "eol": "\n", "final_eol": True}, "header": [hi, hl]})
     # residue composition, enumerated: for every letter of the nucleotide / protein alphabets (ambiguity codes and wildcards
     # included) a homopolymer and an ordinary sequence carrying a run of that letter, under every type admissible for it
     for kind_alpha, letters in ((gen.NUC, "ACGTUNRYSWKMBDHV"), (gen.AA, gen.AA + "BZXU")):
